@@ -431,8 +431,12 @@ def create_for_single_files_subcommand(
     assert len(single_file) != 0
 
     existing_history = MHLHistory.load_from_path(root_path)
+
+    # create the ignore specification
+    ignore_spec = ignore.MHLIgnoreSpec(existing_history.latest_ignore_patterns(), ignore_list, ignore_spec_file)
+
     # start a creation session on the existing history
-    session = MHLGenerationCreationSession(existing_history)
+    session = MHLGenerationCreationSession(existing_history, ignore_spec)
 
     num_failed_verifications = 0
 
@@ -442,7 +446,9 @@ def create_for_single_files_subcommand(
         if not os.path.isabs(path):
             path = os.path.join(os.getcwd(), path)
         if os.path.isdir(path):
-            for folder_path, children in post_order_lexicographic(path, session.ignore_spec.get_path_spec()):
+            for folder_path, children in post_order_lexicographic(
+                path, session.ignore_spec.get_path_spec(), root_path
+            ):
                 for item_name, is_dir in children:
                     file_path = os.path.join(folder_path, item_name)
                     if is_dir:
